@@ -775,6 +775,12 @@ class URL:
         query_string = self.query_params.to_text(full_quote=full_quote)
         fragment = quote_fragment_part(self.fragment, full_quote=full_quote)
 
+        if not scheme and not authority:
+            # RFC 3986 4.2: a colon in the first segment of a relative
+            # path would be read back as the end of a scheme
+            first, sep, rest = path.partition('/')
+            path = first.replace(':', '%3A') + sep + rest
+
         parts = []
         _add = parts.append
         if scheme:
